@@ -30,6 +30,7 @@ import (
 	"path/filepath"
 	"sort"
 	"strings"
+	"syscall"
 	"time"
 
 	"github.com/mutagen-io/mutagen/pkg/agent"
@@ -105,6 +106,10 @@ func childBundle(args []string) int {
 type bHost struct {
 	root  string
 	procs map[bool]*bProc
+	// unprivileged twins (uid/gid 65534), started on demand for layouts whose bundle the user may not read
+	self     string
+	unpriv   map[bool]*bProc
+	noUnpriv bool
 }
 
 type bProc struct {
@@ -115,34 +120,79 @@ type bProc struct {
 }
 
 func newBHost(c *vlib.Ctx, self string) *bHost {
-	h := &bHost{root: c.TempDir("bundle"), procs: map[bool]*bProc{}}
+	h := &bHost{root: c.TempDir("bundle"), procs: map[bool]*bProc{}, unpriv: map[bool]*bProc{}, self: self}
 	must(os.MkdirAll(filepath.Join(h.root, "libexec"), 0o755))
 	for _, inbin := range []bool{true, false} {
-		dir := filepath.Join(h.root, "sbin")
-		if inbin {
-			dir = filepath.Join(h.root, "bin")
-		}
-		must(os.MkdirAll(dir, 0o755))
-		p := &bProc{path: filepath.Join(dir, "agent-host")}
-		linkOrCopy(self, p.path)
-		p.cmd = exec.Command(p.path, "child", "bundle")
-		p.cmd.Env = append(os.Environ(), "HOME="+h.root)
-		p.cmd.Dir = h.root
-		p.cmd.Stderr = os.Stderr
-		var err error
-		p.in, err = p.cmd.StdinPipe()
+		p, err := h.start(inbin, false)
 		must(err)
-		so, err := p.cmd.StdoutPipe()
-		must(err)
-		p.out = bufio.NewReaderSize(so, 1<<16)
-		must(p.cmd.Start())
 		h.procs[inbin] = p
 	}
 	return h
 }
 
+// start launches the harness copy in <root>/bin or <root>/sbin, optionally as the unprivileged user.
+func (h *bHost) start(inbin, unprivileged bool) (*bProc, error) {
+	dir := filepath.Join(h.root, "sbin")
+	if inbin {
+		dir = filepath.Join(h.root, "bin")
+	}
+	must(os.MkdirAll(dir, 0o755))
+	p := &bProc{path: filepath.Join(dir, "agent-host")}
+	if _, err := os.Lstat(p.path); err != nil {
+		linkOrCopy(h.self, p.path)
+	}
+	p.cmd = exec.Command(p.path, "child", "bundle")
+	p.cmd.Env = append(os.Environ(), "HOME="+h.root)
+	p.cmd.Dir = h.root
+	p.cmd.Stderr = os.Stderr
+	if unprivileged {
+		// the scratch prefix must be traversable by that user
+		for d := h.root; d != "/" && d != "."; d = filepath.Dir(d) {
+			if st, err := os.Stat(d); err == nil && st.Mode().Perm()&0o005 != 0o005 {
+				os.Chmod(d, st.Mode().Perm()|0o055)
+			}
+		}
+		p.cmd.SysProcAttr = &syscall.SysProcAttr{Credential: &syscall.Credential{Uid: 65534, Gid: 65534}}
+	}
+	var err error
+	p.in, err = p.cmd.StdinPipe()
+	must(err)
+	so, err := p.cmd.StdoutPipe()
+	must(err)
+	p.out = bufio.NewReaderSize(so, 1<<16)
+	if err := p.cmd.Start(); err != nil {
+		return nil, err
+	}
+	return p, nil
+}
+
+// unprivileged returns the twin running as uid 65534 (nil if that is not possible here).
+func (h *bHost) unprivileged(inbin bool) *bProc {
+	if h.noUnpriv || os.Geteuid() != 0 {
+		h.noUnpriv = true
+		return nil
+	}
+	if p := h.unpriv[inbin]; p != nil {
+		return p
+	}
+	p, err := h.start(inbin, true)
+	if err != nil {
+		h.noUnpriv = true
+		return nil
+	}
+	h.unpriv[inbin] = p
+	return p
+}
+
 func (h *bHost) close() {
+	all := []*bProc{}
 	for _, p := range h.procs {
+		all = append(all, p)
+	}
+	for _, p := range h.unpriv {
+		all = append(all, p)
+	}
+	for _, p := range all {
 		p.in.Close()
 		done := make(chan struct{})
 		go func() { p.cmd.Wait(); close(done) }()
@@ -240,6 +290,24 @@ func materialiseLoc(dir string, l *bLoc, seed int64, sized bool) {
 	case "absent":
 	case "dir":
 		must(os.MkdirAll(filepath.Join(p, "inner"), 0o755))
+	case "dangling":
+		must(os.Symlink("no-such-bundle-anywhere", p))
+	case "loop":
+		must(os.Symlink(agent.BundleName, p)) // points at itself: ELOOP
+	case "noperm", "corrupt":
+		// a perfectly good bundle holding every platform asked for ...
+		id := "x-" + l.K + "-" + filepath.Base(dir)
+		data := blobBytes(seed, id, 600)
+		var es []bEntry
+		for _, n := range []string{"linux_amd64", "windows_amd64", "plan9_mips"} {
+			es = append(es, bEntry{N: n, ID: id})
+		}
+		writeArchive(p, es, map[string][]byte{id: data})
+		if l.K == "noperm" {
+			must(os.Chmod(p, 0)) // ... that the user may not read
+		} else {
+			must(os.Truncate(p, 24)) // ... cut off inside the compressed stream
+		}
 	case "bundle":
 		blobs := map[string][]byte{}
 		for i := range l.E {
@@ -295,6 +363,14 @@ func runLayout(h *bHost, ly *bLayout) []map[string]any {
 	materialiseLoc(exeDir, &exe, ly.bs, ly.sized)
 	materialiseLoc(libDir, &lib, ly.bs, ly.sized)
 	proc := h.procs[ly.inbin]
+	unprivileged := false
+	if exe.K == "noperm" || lib.K == "noperm" {
+		// mode 0000 means nothing to root: ask the twin that runs as uid 65534
+		if proc = h.unprivileged(ly.inbin); proc == nil {
+			return nil // not possible here: skipped (counted by the caller)
+		}
+		unprivileged = true
+	}
 	host := proc.path
 
 	var qs []bQuery
@@ -302,10 +378,12 @@ func runLayout(h *bHost, ly *bLayout) []map[string]any {
 		bq := bQuery{Goos: q.Goos, Goarch: q.Goarch}
 		tmp := filepath.Join(work, fmt.Sprintf("tmp%d", i))
 		must(os.MkdirAll(tmp, 0o755))
+		must(os.Chmod(tmp, 0o777))
 		bq.Tmp = tmp
 		if q.Om == "path" {
 			od := filepath.Join(work, fmt.Sprintf("out%d", i))
 			must(os.MkdirAll(od, 0o755))
+			must(os.Chmod(od, 0o777))
 			bq.Out = filepath.Join(od, "agent")
 		}
 		qs = append(qs, bq)
@@ -319,7 +397,7 @@ func runLayout(h *bHost, ly *bLayout) []map[string]any {
 		}
 		in := q
 		in.Inbin, in.Exe, in.Lib, in.Bs = ly.inbin, exe, lib, ly.bs
-		out := map[string]any{"ok": a.Err == "", "err": a.Err, "b": "", "z": 0, "exists": false, "mode": 0, "where": ""}
+		out := map[string]any{"ok": a.Err == "", "err": a.Err, "b": "", "z": 0, "exists": false, "mode": 0, "where": "", "unprivileged": unprivileged}
 		// independent look at what was produced
 		var produced []string
 		if qs[i].Out != "" {
@@ -370,11 +448,13 @@ func randName(r *rand.Rand) (string, string) {
 }
 
 func randLoc(r *rand.Rand, prefix string) bLoc {
-	switch r.Intn(6) {
+	switch r.Intn(9) {
 	case 0:
 		return bLoc{K: "absent"}
 	case 1:
 		return bLoc{K: "dir"}
+	case 2:
+		return bLoc{K: []string{"dangling", "loop", "noperm", "corrupt"}[r.Intn(4)]}
 	}
 	n := r.Intn(7)
 	l := bLoc{K: "bundle"}
@@ -456,11 +536,17 @@ func runBundle(c *vlib.Ctx) error {
 		(<-hosts).close()
 	}
 	for i, recs := range results {
+		if recs == nil {
+			c.AddExtra("layouts_noperm_skipped_no_unprivileged_user", 1)
+		}
 		for _, rec := range recs {
 			c.Emit(rec)
 			c.Eval()
 			in := rec["in"].(bIn)
 			// non-trivial: at least one searched location holds something
+			if k := in.Exe.K; k == "loop" || k == "noperm" || k == "corrupt" || k == "dangling" {
+				c.AddExtra("cases_first_location_"+k, 1)
+			}
 			if in.Exe.K != "absent" || (in.Inbin && in.Lib.K != "absent") {
 				c.NonTrivial(jsonOf(in))
 			}
